@@ -22,7 +22,7 @@ mod verif_c03_icao {
         }
     }
 
-    //@ob id=C03.get_icao.14 flags=noassert props=C03,C01 tier=quick kind=harness fns=adsb/icao.rs:get_icao draw=frame14
+    //@ob id=C03.get_icao.14 flags=noassert props=C03,C01 tier=quick kind=harness fns=adsb/icao.rs:get_icao draw=frame14 replay=icao
     //@region all short frames (DF0..15): DF11 -> AA field; DF0/4/5 -> last 24 bits xor get_crc (pinned to CRC-24 by L1.crc56 + L1.get_crc); zero address dropped
     #[kani::proof]
     #[kani::unwind(90)]
@@ -32,7 +32,7 @@ mod verif_c03_icao {
         kani::cover!(true, "reach_end");
     }
 
-    //@ob id=C03.get_icao.28 flags=noassert props=C03,C01 tier=quick kind=harness fns=adsb/icao.rs:get_icao draw=frame28
+    //@ob id=C03.get_icao.28 flags=noassert props=C03,C01 tier=quick kind=harness fns=adsb/icao.rs:get_icao draw=frame28 replay=icao
     //@region all long frames (DF16..31): DF17/18 -> AA field; DF16/20/21 -> last 24 bits xor get_crc (pinned by L1.crc112 + L1.get_crc); zero address dropped
     #[kani::proof]
     #[kani::unwind(90)]
